@@ -420,7 +420,9 @@ DERIVE = ("x0", "d-d", "xn", "nx", "//n", "abs", "d+d", "to_days",
 def workload(ctx, repo):
     rng = ctx.rng
     n = 8000 if ctx.tier == "quick" else 30000
-    fixed = [{}, {"years": 0}, {"weeks": 0}, {"days": 0, "hours": 0.0},
+    fixed = [{"years": 10 ** 4299}, {"months": -(10 ** 4299) - 7},
+             {"years": 10 ** 4298 + 1}, {"years": 10 ** 640},
+             {}, {"years": 0}, {"weeks": 0}, {"days": 0, "hours": 0.0},
              {"weeks": 1}, {"weeks": -1}, {"hours": 1.5, "minutes": 3},
              {"seconds": 0.000001}, {"years": -1, "months": -2, "days": -3,
                                      "hours": -4, "minutes": -5,
